@@ -828,11 +828,13 @@ class UnionConverter(JsonConverter[T, np.object_]):
         if json_object is None:
             if self._cases[0] is None:
                 return None  # type: ignore
-            else:
+            elif not (self._simple and None in self._json_type_to_case_index):
                 raise ValueError("None is not a valid for this union type")
 
         if self._simple:
-            idx = self._json_type_to_case_index[type(json_object)]
+            idx = self._json_type_to_case_index[
+                None if json_object is None else type(json_object)
+            ]
             case = self._cases[idx]
             return case[0](case[1].from_json(json_object))  # type: ignore
         else:
